@@ -145,6 +145,8 @@ type X struct {
 	assumed  map[string]bool
 	callCnt  map[string]int
 	nameCnt  map[string]int
+	opqNils  map[string]string
+	sorts    map[string]string
 	sums     map[string]*SumFn
 	depth    int
 	maxPaths int
@@ -161,17 +163,21 @@ func (x *X) sym(prefix, sort string) string {
 	prefix = strings.NewReplacer("|", "_", "\\", "_", " ", "_").Replace(prefix)
 	n := fmt.Sprintf("|%s!%d|", prefix, x.nsym)
 	x.decls = append(x.decls, fmt.Sprintf("(declare-const %s %s)", n, smtSort(sort)))
+	x.sorts[n] = smtSort(sort)
 	return n
 }
 func (x *X) declFun(prefix string, args []string, ret string) string {
 	x.nsym++
 	n := fmt.Sprintf("|%s!%d|", prefix, x.nsym)
 	x.decls = append(x.decls, fmt.Sprintf("(declare-fun %s (%s) %s)", n, strings.Join(args, " "), ret))
+	x.sorts[n] = ret
 	return n
 }
 func (x *X) bound(prefix, sort string) string {
 	x.nsym++
-	return fmt.Sprintf("%s_%d", prefix, x.nsym)
+	n := fmt.Sprintf("%s_%d", prefix, x.nsym)
+	x.sorts[n] = smtSort(sort)
+	return n
 }
 func (x *X) newID() int { x.nid++; return x.nid }
 
@@ -371,6 +377,10 @@ func (x *X) zero(s *State, t types.Type, wrap wrapFn) Val {
 func constArr(w, so, v string) string {
 	if w == so {
 		return v
+	}
+	if !(v == "true" || v == "false" || v == "0" || v == "noCoins") {
+		// cvc5 accepts only values in constant arrays: use a declared (unconstrained) array for symbolic defaults
+		return "|zarr:" + strings.ReplaceAll(w, " ", "_") + ":" + strings.Trim(v, "|") + "|"
 	}
 	inner := elemSort(w)
 	return fmt.Sprintf("((as const %s) %s)", w, constArr(inner, so, v))
@@ -1043,14 +1053,49 @@ func (x *X) step(s *State, in ssa.Instruction) bool {
 		return adv()
 	case *ssa.Slice:
 		// only the "[n]T{...}[:]" idiom (pointer to a fresh array object) and full reslices are supported
-		if i.Low != nil || i.High != nil || i.Max != nil {
-			x.fail("slice expression with bounds: %s", i)
+		hi := -1
+		if i.High != nil {
+			if c, ok := i.High.(*ssa.Const); ok {
+				hi = int(c.Int64())
+			} else {
+				x.fail("slice expression with symbolic bounds: %s", i)
+			}
+		}
+		if i.Low != nil || i.Max != nil {
+			if c, ok := i.Low.(*ssa.Const); !ok || c.Int64() != 0 || i.Max != nil {
+				x.fail("slice expression with bounds: %s", i)
+			}
 		}
 		switch base := x.val(s, i.X).(type) {
 		case Ptr:
 			arr := pathGet(s.objs[base.Obj], base.Path).(St)
 			n := len(arr.F)
+			if hi >= 0 && hi <= n {
+				n = hi
+			}
 			at := i.X.Type().Underlying().(*types.Pointer).Elem().Underlying().(*types.Array)
+			opaque, ifaces := false, IfaceArr{map[int]Iface{}}
+			_, elemIsIface := at.Elem().Underlying().(*types.Interface)
+			for k := 0; k < n; k++ {
+				switch e := arr.F[fmt.Sprint(k)].(type) {
+				case Opq:
+					opaque = true
+				case Iface:
+					ifaces.E[k] = e
+				default:
+					if elemIsIface {
+						ifaces.E[k] = Iface{V: e}
+					}
+				}
+			}
+			if opaque {
+				fr.env[i] = Sl{0, fmt.Sprint(n), Opq{"opaque elements"}}
+				return adv()
+			}
+			if len(ifaces.E) == n && n > 0 {
+				fr.env[i] = Sl{0, fmt.Sprint(n), ifaces}
+				return adv()
+			}
 			el := x.zero(s, at.Elem(), func(so string) string { return arrSort("Int", so) })
 			for k := 0; k < n; k++ {
 				ev := x.flat(s, arr.F[fmt.Sprint(k)])
@@ -1061,6 +1106,9 @@ func (x *X) step(s *State, in ssa.Instruction) bool {
 			s.arrs[id] = el
 			fr.env[i] = Sl{id, fmt.Sprint(n), nil}
 		case Sl:
+			if hi >= 0 {
+				x.fail("reslicing a slice: %s", i)
+			}
 			fr.env[i] = base
 		default:
 			x.fail("slice of %T", base)
@@ -1197,6 +1245,15 @@ func (x *X) step(s *State, in ssa.Instruction) bool {
 			return true
 		}
 		if c == "false" {
+			x.gotoBlock(s, b.Succs[1])
+			return true
+		}
+		// cheap syntactic pruning: the condition (or its negation) is already a conjunct of the path condition
+		if s.knows(c) {
+			x.gotoBlock(s, b.Succs[0])
+			return true
+		}
+		if s.knows(sNot(c)) {
 			x.gotoBlock(s, b.Succs[1])
 			return true
 		}
@@ -1388,13 +1445,12 @@ func (x *X) ifaceNil(a Iface) string {
 }
 
 func (x *X) opqNil(s *State, o Opq) string {
-	// identity of opaque interface values is tracked by name: the same field gives the same answer
-	key := "opqnil:" + o.Why
-	if v, ok := s.ghost[key]; ok {
-		return tm(v)
+	// identity of opaque interface values is tracked by name: the same field gives the same answer on every path
+	if t, ok := x.opqNils[o.Why]; ok {
+		return t
 	}
 	t := x.sym("isnil."+o.Why, "Bool")
-	s.ghost[key] = Sc{T: t, Sort: "Bool"}
+	x.opqNils[o.Why] = t
 	return t
 }
 
@@ -1637,6 +1693,9 @@ func (x *X) verify() (res *VerifyResult) {
 func (x *X) checkEnsures(s *State, res []Val) {
 	fr := s.top()
 	for k, c := range x.ct.Ensures {
+		if c.Assumed {
+			continue
+		}
 		g := x.evalClause(s, c, evalCtx{results: res, post: true})
 		name := c.Name
 		if name == "" {
@@ -1645,4 +1704,54 @@ func (x *X) checkEnsures(s *State, res []Val) {
 		x.emit(s, "ensures", fmt.Sprintf("%s@b%d", name, fr.block.Index), c.Labels, g, c.Text)
 	}
 	x.checkFrame(s)
+}
+
+// knows: f is literally a conjunct of the path condition.
+func (s *State) knows(f string) bool {
+	for _, p := range s.pc {
+		if p == f {
+			return true
+		}
+		if strings.HasPrefix(p, "(and ") && strings.Contains(p, " "+f) {
+			// top-level conjunct?
+			for _, c := range splitTop(p[5 : len(p)-1]) {
+				if c == f {
+					return true
+				}
+			}
+		}
+	}
+	return false
+}
+
+func splitTop(s string) []string {
+	var out []string
+	d, st := 0, 0
+	inBar := false
+	for i := 0; i < len(s); i++ {
+		c := s[i]
+		if c == '|' {
+			inBar = !inBar
+		}
+		if inBar {
+			continue
+		}
+		switch c {
+		case '(':
+			d++
+		case ')':
+			d--
+		case ' ':
+			if d == 0 {
+				if i > st {
+					out = append(out, s[st:i])
+				}
+				st = i + 1
+			}
+		}
+	}
+	if st < len(s) {
+		out = append(out, s[st:])
+	}
+	return out
 }
